@@ -309,6 +309,9 @@ func (f *fileBackedFile) VirtualAllocate(ctx context.Context, off, size uint64) 
 	f.lockMutatingData()
 	defer f.lock.Unlock()
 
+	if f.referenceCount == 0 {
+		return StatusErrStale
+	}
 	if end := uint64(off) + uint64(size); f.size < end {
 		if s := f.virtualTruncate(end); s != StatusOK {
 			return s
@@ -496,6 +499,9 @@ func (f *fileBackedFile) VirtualSetAttributes(ctx context.Context, in *Attribute
 	}
 	defer f.lock.Unlock()
 
+	if f.referenceCount == 0 {
+		return StatusErrStale
+	}
 	if hasSizeBytes {
 		if s := f.virtualTruncate(sizeBytes); s != StatusOK {
 			return s
